@@ -168,7 +168,10 @@ fn cases<H: std::hash::Hasher + Default>(ctx: &mut Ctx, structured: bool) {
         ctx.mark_nontrivial();
         let mut p = ProbOrdMinHash2::<H>::new(m, l);
         p.verif_set_seed(SEED);
-        ctx.op(&format!("ord new a {} {} {}", m, l, hx(SEED)));
+        // one case in five: the documented way of randomising an instance (change_rng_seed) - the model then runs with the seeds the
+        // instance reports; everything that holds for the default seeds must hold for these too
+        let seed_used = if c % 5 == 4 { p.change_rng_seed(); ctx.count("ord after change_rng_seed"); p.verif_seed() } else { SEED };
+        ctx.op(&format!("ord new a {} {} {}", m, l, hx(seed_used)));
         let hashes: Vec<String> = seq.iter().map(|x| hash_tok::<H>(x)).collect();
         // earlier calls on the same instance must not matter
         if c % 2 == 1 {
@@ -213,7 +216,7 @@ fn cases<H: std::hash::Hasher + Default>(ctx: &mut Ctx, structured: bool) {
                 let mut q2 = ProbOrdMinHash2::<H>::new(m, l);
                 q2.verif_set_seed(SEED);
                 let s3 = q2.hash_set(&seq);
-                if &s3 != sig {
+                if &s3 != sig && c % 5 != 4 {
                     ctx.oracle_failure(serde_json::json!({"kind":"impl_violates_property","what":"two instances with the same seed differ","m":m,"l":l}));
                 }
                 let mut fresh = ProbOrdMinHash2::<H>::new(m, l);
